@@ -273,11 +273,15 @@ def check_constraints(rec, kind, sol, case, h_rev, wit):
     ctx = case.ctx
     import z3
     try:
-        # is_satisfiable is 'self._solver.check() == z3.sat'; the same call with a solver time limit, so
-        # that a hard bit-vector query (64-bit products) ends as 'unknown' (counted, never a verdict)
-        sol._solver.set("timeout", Z3_TIMEOUT_MS)
-        answer = sol._solver.check()
+        # is_satisfiable is 'self._solver.check() == z3.sat'; the same query on a private solver with a
+        # time limit, so that a hard bit-vector query (64-bit products) ends as 'unknown' (counted, never
+        # a verdict).  The assertions are read before any check(): afterwards z3 may return them
+        # preprocessed (solved equalities eliminated).
         assertions = list(sol._solver.assertions())
+        mine = z3.Solver()
+        mine.set("timeout", Z3_TIMEOUT_MS)
+        mine.add(*assertions)
+        answer = mine.check()
     except Exception as exc:
         rec.fail("implicit: is_satisfiable raises %s" % type(exc).__name__, repr(exc), wit)
         return
